@@ -256,21 +256,7 @@ def run(tier="quick", seed=0, jobs=16):
     from props import C12 as c12
     from vt import kernels
 
-    try:
-        vcs, info = kernels.verification_conditions("wthh_id_numpy")
-        lostk = []
-        for oname, status, backend, secs, reason in kernels.discharge(vcs, 30):
-            rep.ob("KC " + oname, status, backend, secs, info["where"], "vc", reason)
-            if status != "discharged":
-                lostk.append(oname)
-        if lostk:
-            ne, nd, bad = c12._bounded_bg_wthh(3)
-            bad = [b for b in bad if b["kernel"] == "wthh_id_numpy"]
-            if bad:
-                rep.undecided = [u for u in rep.undecided if not u.startswith("KC ")]
-                rep.violation("wthh_id_numpy:contract", f"the part-household contract used by M2/M5 does not hold: wthh_id_numpy on {bad[0]['inputs']} gives {bad[0]['got']} (members with and without priority share a part-household, so ALG II and Wohngeld can be paid together)", {"obligation": lostk[0], **bad[0]}, True)
-    except kernels.Unsupported as ex:
-        rep.ob("KC wthh_id_numpy: contract binds to the code", "unsupported", "E2", 0, "src/_gettsim/groupings.py", "binding", str(ex))
+    c12.recheck_kernel(rep, "wthh_id_numpy", "KC", "the part-household contract used by M2/M5 does not hold (members with and without priority share a part-household, so ALG II and Wohngeld can be paid together)")
     rep.functions |= {"src/_gettsim/transfers/arbeitsl_geld_2/arbeitsl_geld_2.py arbeitsl_geld_2_m_bg", "src/_gettsim/transfers/kinderzuschl/kinderzuschl.py kinderzuschl_m_bg", "src/_gettsim/transfers/wohngeld.py wohngeld_m_wthh", "src/_gettsim/transfers/grunds_im_alter.py grunds_im_alter_m_eg",
                       "src/_gettsim/transfers/benefit_checks/benefit_checks.py wohngeld_vorrang_bg / kinderzuschl_vorrang_bg / wohngeld_kinderzuschl_vorrang_bg", "src/_gettsim/demographic_vars.py erwachsene_alle_rentner_hh / erwachsen", "src/_gettsim/groupings.py wthh_id_numpy (by contract)"}
     rep.samples = rep.obligations[:4]
